@@ -39,6 +39,7 @@ Sweep: C02.1 / C02.6 the accumulation over children and the placement walk over 
 Sixth round: C02.1 Server.remove gives capacity back additively (found by role); the fold of the children traits is judged on the attribute or on a local stored afterwards; C02.5 the cursor of each placement strategy indexes the sequence whose length bounds and wraps it, and the walk is left only on the wrap comparison (also through a named boolean).
 Seventh round: C02.6 the routines that decide whether an instance holds an identity test `is None`, never the truth value (identity 0 is an identity; shared with C05).
 Eighth round: C02.1 TraitSet.add stores the child's entry and folds the aggregate again on every path, TraitSet.remove skips the deletion only for a child without an entry; C02.7 the affinity of an instance is set by its constructor only (shared with C04.1).
+Ninth round: C02.4 the memo key keeps the level of every affinity limit - where the key closure reads the limits mapping, one read takes its items or a subscript per level (F19: Affinity.constraints carries sorted values only, so {'rack': 1} and {'server': 1} shared a record; repaired in /repo).
 Does NOT decide the liveness statement as a whole (quiescent states reached
 by histories) nor the strategies' index arithmetic.
 """
@@ -866,6 +867,66 @@ def _shape_complete(ctx, tracker):
                construct='admission reads app.%s' % '.'.join(chain))
 
 
+def _key_keeps_levels(ctx, tracker):
+    """C02.4: the memo key determines the admission verdict.  The affinity
+    limits are a mapping level -> limit and the admission reads them by
+    level; a key that carries only the *values* of the mapping ("1" for
+    {'rack': 1} and for {'server': 1} alike) files two instances with
+    different limits under one record, and the one that fits is skipped as
+    infeasible because the other did not.  So wherever the key closure reads
+    the limits, one of the reads keeps the levels: the items of the mapping,
+    or a subscript per level."""
+    index = ctx.index
+    app_cls = index.get_class(K.SCHED, 'Application')
+    aff = index.get_class(K.SCHED, 'Affinity')
+    # (every method of the tracker, also a helper the view spliced into its
+    # callers - the source of each is read)
+    closure = list(tracker.methods.values()) + [
+        app_cls.methods.get('shape'),
+        aff.methods.get('__init__') if aff else None]
+    closure = [f for f in closure if f is not None]
+    reads = []
+    for func in closure:
+        for sub in K.walk_no_nested(func.raw):
+            if isinstance(sub, ast.Attribute) and sub.attr == 'limits' and \
+                    isinstance(sub.ctx, ast.Load):
+                reads.append((func, sub))
+    ctx.require(reads, 'reads of the affinity limits in the closure of the '
+                'memo key', rule='C02.4')
+    keeps = []
+    for func in closure:
+        for sub in K.walk_no_nested(func.raw):
+            if isinstance(sub, ast.Call) and isinstance(
+                    sub.func, ast.Attribute) and sub.func.attr == 'items' \
+                    and N.txt(sub.func.value).endswith('limits'):
+                keeps.append((func, sub))
+            if isinstance(sub, ast.Call) and K.callee_text(sub) in (
+                    'six.iteritems', 'six.viewitems', 'dict', 'sorted',
+                    'tuple', 'frozenset') and len(sub.args) == 1 and (
+                        K.callee_text(sub).startswith('six.') or
+                        K.callee_text(sub) in ('dict', 'frozenset')) and \
+                    N.txt(sub.args[0]).endswith('limits'):
+                keeps.append((func, sub))
+            if isinstance(sub, ast.Subscript) and N.txt(
+                    sub.value).endswith('limits') and isinstance(
+                        sub.ctx, ast.Load):
+                keeps.append((func, sub))
+    # the values-only read is what feeds the key today: name it
+    values_only = [(f, c) for f in closure for c in K.calls(f.raw)
+                   if isinstance(c.func, ast.Attribute) and
+                   c.func.attr == 'values' and
+                   N.txt(c.func.value).endswith('limits')]
+    where = (values_only or reads)[0]
+    ctx.ob('C02.4', where[0], where[1], bool(keeps),
+           'the memo key keeps the level of every affinity limit (items of '
+           'the mapping or one subscript per level)' if keeps else
+           'the affinity limits enter the memo key by value only (%s): '
+           "{'rack': 1} and {'server': 1} share a record, and an instance "
+           'that fits is skipped because another one did not' %
+           N.txt(where[1])[:50],
+           construct='memo key keeps limit levels')
+
+
 def _suggested(put):
     """Locals of Bucket.put holding the strategy's first suggestion."""
     out = set()
@@ -1129,6 +1190,7 @@ def check(ctx):
     _shortcut(ctx, down, nz)
     tracker = _memo(ctx, nz)
     _shape_complete(ctx, tracker)
+    _key_keeps_levels(ctx, tracker)
     _walk(ctx)
     _identity_release(ctx)
     _exact_fit(ctx, nz)
@@ -1157,6 +1219,19 @@ def check(ctx):
 _S = 'lib/python/treadmill/scheduler/__init__.py'
 
 MUTANTS = [
+    ('revert-F19-memo-key-drops-limit-levels', [(_S, """        limits = tuple(sorted(
+            (level, limit)
+            for level, limit in six.iteritems(app.affinity.limits)
+            if limit != float('inf')
+        ))
+        return constraints + (app.traits, limits), demand
+""", """        return constraints + (app.traits,), demand
+""")], 'C02.4'),
+    ('memo-key-limit-values-only', [(_S, """            (level, limit)
+            for level, limit in six.iteritems(app.affinity.limits)
+""", """            limit
+            for limit in six.itervalues(app.affinity.limits)
+""")], 'C02.4'),
     ('adjust-up-minimum', [(_S, """        self.free_capacity = np.maximum(self.free_capacity, new_capacity)
 """, """        self.free_capacity = np.minimum(self.free_capacity, new_capacity)
 """)], 'C02.1'),
@@ -1239,8 +1314,8 @@ MUTANTS = [
 """, """            if _any_le(demand, self.recorder[constraints]):
                 self.recorder[constraints] = demand
 """)], 'C02.3'),
-    ('memo-key-without-traits', [(_S, """        return constraints + (app.traits,), demand
-""", """        return constraints, demand
+    ('memo-key-without-traits', [(_S, """        return constraints + (app.traits, limits), demand
+""", """        return constraints + (limits,), demand
 """)], 'C02.4'),
     ('shape-without-lease', [(_S, """        constraints = (self.affinity.constraints + (self.lease,))
 """, """        constraints = self.affinity.constraints
